@@ -1,98 +1,195 @@
-"""U8 npn - NPN4 canonicalisation + pattern transformation (C21). Back end: Kani/CBMC, complete (constant loop bounds 16/4/24, full u16 domain)."""
+"""U8 npn - NPN4 canonicalisation + pattern transformation (C21).
+Kani/CBMC (complete: constant loop bounds 16/4/24, full u16 domain) for the truth-table transforms and transform_pattern;
+Verus (unbounded) for npn_canonical's minimality loop and the perm_table initialiser."""
 import re
-from vp.core import KaniJob
+from vp.core import KaniJob, VerusJob
+from vp.extract import ExtractError
 from vp.kani_run import Harness
+from vp.verus_run import VerusFile
 
 F = "crates/synthesizer/src/aig/npn4.rs"
 
-TRUSTED = {
-    r"kani::assume\(": "harness input domains only: perm index < 24, minterm < 16, symbolic p is a permutation, pattern well-formedness "
-                       "(gate k references nodes < 4+k, output < 4+n, n <= MAX_ANDS) - see contract_clauses",
+KANI_TRUSTED = {
+    r"kani::assume\(": "harness input domains only: perm index < 24, minterm < 16, symbolic p is a permutation, pattern well-formedness (gate k references "
+                       "nodes < 4+k, output < 4+n); in transform_commutes every other assume(P) directly follows assert!(P) on the same values (lemma chaining: P is checked "
+                       "for all inputs before it is used); the library step (6) assumes npn_canonical's postcondition t.apply(tt) == canonical, proved in the Verus job",
+}
+VERUS_TRUSTED = {
+    r"pub fn perm_tt": "perm_tt kept with its real body but external_body: Verus sees it as the pure function sp_perm_tt (its bit-level meaning, totality and "
+                       "panic-freedom are proved for all 2^16 x 24 inputs by Kani harness perm_tt_permutes_inputs)",
+    r"pub fn flip_inputs": "flip_inputs kept with its real body but external_body: Verus sees it as the pure function sp_flip (meaning proved by Kani harness flip_inputs_negates_inputs)",
+    r"fn perm_table\(\)": "perm_table(): OnceLock accessor, external_body with the contract of its doc comment table[i*65536+tt] == perm_tt(tt, ALL_PERMS[i]); the initialiser "
+                          "closure body is proved against that contract as vp_perm_table_init (rule O9); trusted: OnceLock::get_or_init returns a reference to the value its closure returned",
+    r"proof fn ax_identity_apply": "axiom A3 flip_inputs(perm_tt(tt,[0,1,2,3]),0) == tt: proved for every tt by Kani harness identity_transform_is_identity",
 }
 
-TABLE = ("perm_table(): the OnceLock + 3 MB Vec (24*65536 initialiser iterations) is not linked; npn_canonical's unchanged body reads the trusted accessor "
-         "VpPermTable (units/npn/harness.rs) whose Index impl *is* the assumed contract table[i*65536+tt] == perm_tt(tt, ALL_PERMS[i]), i < 24 "
-         "(the sentence of the real doc comment); the initialiser loop of the real perm_table is NOT proved")
+E7B = "E7b"   # `for (i, &x) in ARR.iter().enumerate()` -> `for i in 0..ARR.len()` + `let x = ARR[i];` at body start (Verus: no ref patterns, no Enumerate spec)
+O9 = "O9"     # OnceLock wrapper `static T..; T.get_or_init(|| { BODY })` removed: BODY becomes the body of a function returning the value
 
 
 def expand(text):
     return re.sub(r"#\[vp_proof\((\d+)\)\]", r"#[cfg_attr(kani, kani::proof)]\n    #[cfg_attr(kani, kani::unwind(\1))]", text)
 
 
-def extracted(ctx):
-    """-> (text, items) : the items of npn4.rs the harnesses link, byte for byte (file-level feature gate ignored)"""
+KANI_ITEMS = [("type", "Tt4", None), ("const", "VAR_TT", None), ("const", "MAX_ANDS", None), ("const", "ALL_PERMS", None), ("fn", "perm_tt", None),
+              ("fn", "flip_inputs", None), ("struct", "NpnTransform", None), ("impl{", "NpnTransform", None), ("const", "IDENTITY", "NpnTransform"),
+              ("fn", "apply", "NpnTransform"), ("}", None, None), ("struct", "PatEdge", None), ("struct", "AigPattern", None), ("impl{", "AigPattern", None),
+              ("fn", "size", "AigPattern"), ("fn", "eval", "AigPattern"), ("fn", "tt", "AigPattern"), ("}", None, None), ("fn", "transform_pattern", None)]
+
+
+def cut(ctx, plan, orig=False):
+    """-> (text, items): items of npn4.rs, byte for byte (the crate-level `#[cfg(feature = "aig")]` gate is ignored)"""
     s = ctx.src(F)
     items, out = [], []
-
-    def add(it):
-        items.append(it)
-        out.append(it.render())
-
-    for kind, name in [("type", "Tt4"), ("const", "VAR_TT"), ("const", "MAX_ANDS"), ("const", "ALL_PERMS"),
-                       ("fn", "perm_tt"), ("fn", "flip_inputs"), ("struct", "NpnTransform")]:
-        add(s.item(kind, name))
-    out.append("impl NpnTransform {")
-    add(s.item("const", "IDENTITY", impl="NpnTransform"))
-    add(s.item("fn", "apply", impl="NpnTransform"))
-    out.append("}")
-    add(s.item("fn", "npn_canonical"))
-    add(s.item("struct", "PatEdge"))
-    add(s.item("struct", "AigPattern"))
-    out.append("impl AigPattern {")
-    for f in ("size", "eval", "tt"):
-        add(s.item("fn", f, impl="AigPattern"))
-    out.append("}")
-    add(s.item("fn", "transform_pattern"))
+    for kind, name, impl in plan:
+        if kind == "impl{":
+            out.append("impl %s {" % name)
+        elif kind == "}":
+            out.append("}")
+        else:
+            it = s.item(kind, name, impl=impl)
+            items.append(it)
+            out.append(it.orig if orig else it.render())
     return "\n".join(out) + "\n", items
 
 
-def build(ctx, res):
-    text, items = extracted(ctx)
+def kani_job(ctx, res):
+    text, items = cut(ctx, KANI_ITEMS)
     raw = ctx.unit_file("npn", "harness.rs")
-    lib = text + expand(raw)
+    lib = text + ctx.unit_file("npn", "spec.rs") + expand(raw)
     fn_of = {"all_perms": "ALL_PERMS", "var_tt": "VAR_TT", "perm_tt": "perm_tt", "flip_inputs": "flip_inputs", "apply": "NpnTransform::apply",
-             "pattern_tt": "AigPattern::eval", "transform_pattern": "transform_pattern", "canonical": "npn_canonical", "library": "build_library (one second-pass step)",
-             "canary_pattern": "transform_pattern", "canary_canonical": "npn_canonical"}
+             "identity": "NpnTransform::IDENTITY", "pattern_tt": "AigPattern::eval", "transform_pattern": "transform_pattern",
+             "canary_pattern": "AigPattern::eval", "canary_transform": "transform_pattern"}
     hs = []
     for n in re.findall(r"#\[vp_proof\(\d+\)\]\s*pub fn (\w+)", raw):
         fn = next((v for k, v in fn_of.items() if n.startswith(k)), n)
         hs.append(Harness("harness::" + n, kind="canary" if n.startswith("canary_") else "proof", fn=fn))
-    for t in [TABLE] + LIB_ASSUMED:
-        ent = "npn: " + t
-        if ent not in res.trusted:
-            res.trusted.append(ent)
-    # the lemma about build_library is stated over its two insertion sites; if their text moves, the lemma no longer speaks
-    # about the code and the run is undecided (ExtractError -> exit 2)
+    return KaniJob("npn", lib, hs, deps={}, items=items, trusted=KANI_TRUSTED, jobs=4, timeout=1200, per_harness_timeout=400)
+
+
+def verus_job(ctx, res):
+    s = ctx.src(F)
+    vf = VerusFile(header="use vstd::prelude::*;\nuse std::sync::OnceLock;\nverus! {\nglobal size_of usize == 8;\n")
+    items = []
+
+    def add(it, label=None):
+        items.append(it)
+        vf.item(it, label)
+
+    add(s.item("type", "Tt4"))
+    add(s.item("const", "ALL_PERMS"))
+    for name, sp in (("perm_tt", "sp_perm_tt(tt, perm)"), ("flip_inputs", "sp_flip(tt, mask)")):
+        f = s.item("fn", name)
+        f.prepend("#[verifier::external_body]")
+        f.name_return("r")
+        f.spec("    ensures r == %s," % sp)
+        add(f)
+    add(s.item("struct", "NpnTransform"))
+    vf.raw("impl NpnTransform {", "impl")
+    add(s.item("const", "IDENTITY", impl="NpnTransform"), "NpnTransform::IDENTITY")
+    f = s.item("fn", "apply", impl="NpnTransform")
+    f.name_return("r")
+    f.spec("    ensures r == sp_apply(self, tt),")
+    add(f, "NpnTransform::apply")
+    vf.raw("}", "impl")
+
+    # the accessor as npn_canonical sees it (trusted contract) ...
+    f = s.item("fn", "perm_table")
+    f.prepend("#[verifier::external_body]")
+    f.name_return("r")
+    f.spec("    ensures table_ok(r@),")
+    add(f)
+    # ... and its initialiser proved against the same contract
+    f = s.item("fn", "perm_table")
+    f.replace("fn perm_table() -> &'static Vec<Tt4> {\n    static T: OnceLock<Vec<Tt4>> = OnceLock::new();\n    T.get_or_init(|| {",
+              "fn vp_perm_table_init() -> (r: Vec<Tt4>)\n    ensures table_ok(r@),\n{", rule=O9)
+    f.replace("    })\n}", "}", rule=O9)
+    f.replace("for (i, &perm) in ALL_PERMS.iter().enumerate()", "for i in 0..ALL_PERMS.len()", rule=E7B)
+    f.loop_body_start(0, "            let perm = ALL_PERMS[i];")
+    f.loop_spec(0, "            invariant table_filled(t@, i as int, 0),")
+    f.loop_spec(1, "                invariant 0 <= i < 24, base == i * 65536, perm == ALL_PERMS[i as int], table_filled(t@, i as int, tt as int),")
+    add(f, "vp_perm_table_init")
+
+    f = s.item("fn", "npn_canonical")
+    f.name_return("r")
+    f.spec("    ensures\n"
+           "        sp_apply(r.1, tt) == r.0,\n"
+           "        in_group(r.1),\n"
+           "        forall|p: int, n: int, o: bool| 0 <= p < 24 && 0 <= n < 16 ==> r.0 <= sp_apply(#[trigger] npn_t(p, n, o), tt),")
+    f.replace("for (pi, &perm) in ALL_PERMS.iter().enumerate()", "for pi in 0..ALL_PERMS.len()", rule=E7B)
+    f.loop_body_start(0, "        let perm = ALL_PERMS[pi];")
+    f.before_loop(0, "    proof { lemma_identity(tt); }")
+    f.loop_spec(0, "        invariant\n"
+                   "            table_ok(table@),\n"
+                   "            sp_apply(best, tt) == best_tt,\n"
+                   "            in_group(best),\n"
+                   "            forall|p: int, n: int, o: bool| visited(p, n, pi as int, 0) ==> best_tt <= sp_apply(#[trigger] npn_t(p, n, o), tt),")
+    f.loop_spec(1, "            invariant\n"
+                   "                0 <= pi < 24,\n"
+                   "                perm == ALL_PERMS[pi as int],\n"
+                   "                permed == sp_perm_tt(tt, perm),\n"
+                   "                sp_apply(best, tt) == best_tt,\n"
+                   "                in_group(best),\n"
+                   "                forall|p: int, n: int, o: bool| visited(p, n, pi as int, in_neg as int) ==> best_tt <= sp_apply(#[trigger] npn_t(p, n, o), tt),")
+    f.loop_body_end(1, "            proof {\n"
+                       "                assert(sp_apply(npn_t(pi as int, in_neg as int, false), tt) == flipped);\n"
+                       "                assert(sp_apply(npn_t(pi as int, in_neg as int, true), tt) == neg);\n"
+                       "            }")
+    add(f)
+    vf.raw(ctx.unit_file("npn", "verus_spec.rs"), "spec")
+    text = vf.finish()
+    expect = ["NpnTransform::apply", "vp_perm_table_init", "npn_canonical", "lemma_identity", "lemma_least_unfolded"]
+    canaries = [
+        ("vp_canary_axiom", "proof fn vp_canary_axiom(tt: u16) ensures false { ax_identity_apply(tt); }"),
+        ("vp_canary_table", "proof fn vp_canary_table(t: Seq<u16>) requires table_ok(t) ensures false {}"),
+        ("vp_canary_least", "proof fn vp_canary_least(tt: u16, c: u16) requires forall|p: int, n: int, o: bool| 0 <= p < 24 && 0 <= n < 16 ==> "
+                            "c <= sp_apply(#[trigger] npn_t(p, n, o), tt) ensures false {}"),
+    ]
+    return VerusJob("npn_canon", text, vf, expect, canaries=canaries, items=items, trusted=VERUS_TRUSTED, rlimit=30)
+
+
+def build(ctx, res):
+    # the lemma about build_library is stated over its insertion sites; if their text moves, the lemma no longer speaks about
+    # the code and the run is undecided (ExtractError -> exit 2)
     bl = ctx.src(F).item("fn", "build_library")
     for anchor, n in LIB_ANCHORS:
         if bl.orig.count(anchor) != n:
-            from vp.extract import ExtractError
             raise ExtractError("build_library: anchor %r expected %d x, found %d (library lemma no longer matches the code)" % (anchor, n, bl.orig.count(anchor)))
-    items.append(bl)
+    kj = kani_job(ctx, res)
+    kj.items.append(bl)
+    vj = verus_job(ctx, res)
+    for t in LIB_ASSUMED:
+        ent = "npn: " + t
+        if ent not in res.trusted:
+            res.trusted.append(ent)
     res.clauses.update({
         "spec": "npn_value_at(f,p,neg,o,y) := o ^ f(z), z[p[i]] = y[i] ^ neg_i (evaluation on one assignment); wf_pattern: gate k references nodes < 4+k, output < 4+n",
         "perm_tt": "for every tt, every row p of ALL_PERMS, every minterm m: bit m of perm_tt(tt,p) == tt(z), z[p[i]] = y[i] == bit sum((m>>i)&1)<<p[i] of tt",
         "flip_inputs": "for every tt, every u8 mask k, every m: bit m of flip_inputs(tt,k) == bit m^(k&15) of tt",
         "ALL_PERMS": "24 rows, each a permutation of {0,1,2,3}, pairwise distinct, every permutation present",
-        "NpnTransform::apply": "t.apply(f)(y) == out_neg ^ f(z), z[perm[i]] = y[i] ^ in_neg_i; == flip_output(flip_inputs(perm_tt(f,perm),in_neg),out_neg)",
-        "transform_pattern": "for every well-formed pat with <= MAX_ANDS gates and every t in ALL_PERMS x u8 x bool: result well-formed, same size, "
-                             "result.tt() == t.apply(pat.tt())",
-        "npn_canonical": "for every tt: (c,t) = npn_canonical(tt) ==> t in ALL_PERMS x 0..16 x bool, t.apply(tt) == c, and c <= T.apply(tt) for all 768 T",
-        "library": "second pass step: pat well-formed, tt == pat.tt(), (canonical,t) = npn_canonical(tt) ==> transform_pattern(&pat,t).tt() == canonical; "
+        "NpnTransform::apply": "t.apply(f)(y) == out_neg ^ f(z), z[perm[i]] = y[i] ^ in_neg_i; == flip_output(flip_inputs(perm_tt(f,perm),in_neg),out_neg); IDENTITY.apply(f) == f",
+        "transform_pattern": "for every well-formed pat with 0..=3 (= MAX_ANDS) gates and every t in ALL_PERMS x u8 x bool: result well-formed, same size, "
+                             "result.tt() == t.apply(pat.tt()) (guided proof: node-table induction, every step asserted before it is assumed); on single assignments: result(y) == o ^ pat(z)",
+        "npn_canonical": "Verus: ensures t.apply(tt) == c, t in ALL_PERMS x 0..16 x bool, forall p<24, n<16, o: c <= (ALL_PERMS[p],n,o).apply(tt); loop invariant: "
+                         "best.apply(tt) == best_tt && forall visited (p,n,o): best_tt <= T(p,n,o).apply(tt)",
+        "perm_table": "Verus: the initialiser closure body (as vp_perm_table_init) ensures len == 24*65536 and t[i*65536+tt] == perm_tt(tt, ALL_PERMS[i]); all index arithmetic in bounds",
+        "library": "second pass step: pat well-formed, tt == pat.tt(), (canonical,t) any pair satisfying npn_canonical's contract ==> transform_pattern(&pat,t).tt() == canonical; "
                    "see trusted_base for the steps of build_library that are assumed",
     })
-    res.samples.append({"obligation": "kani:npn:canonical_is_least_in_class", "contract": "forall tt: u16, T in ALL_PERMS x u8 x bool: npn_canonical(tt).0 <= T.apply(tt)"})
-    return [KaniJob("npn", lib, hs, deps={}, items=items, trusted=TRUSTED, jobs=4, timeout=1500, per_harness_timeout=600)]
+    res.samples.append({"obligation": "verus:npn:npn_canonical",
+                        "contract": "ensures sp_apply(r.1, tt) == r.0, in_group(r.1), forall p<24, n<16, o: r.0 <= sp_apply(npn_t(p,n,o), tt)"})
+    res.samples.append({"obligation": "kani:npn:transform_pattern_commutes_with_apply_3_gates", "contract": "transform_pattern(&pat,t).tt() == t.apply(pat.tt())"})
+    return [vj, kj]
 
 
 # "Every library pattern computes its recorded truth table" = lemma over the contracts above; the steps that neither tool ingests are assumed:
 LIB_ASSUMED = [
-    "build_library, assumed (std HashMap + recursion over a nested fn, not ingested): (1) HashMap::insert(k,v)/get/into-iteration behave as a finite map, so every "
-    "(tt, pat) the second pass sees was inserted by the only by_tt insertion site `let tt = pat.tt(); .. by_tt.insert(tt, pat)` and thus tt == pat.tt(); "
+    "build_library, assumed (std HashMap + a recursive nested fn, not ingested): (1) HashMap::insert/get/into-iteration behave as a finite map, so every "
+    "(tt, pat) the second pass sees was inserted by the only by_tt insertion site `let tt = pat.tt(); .. by_tt.insert(tt, pat);` and thus tt == pat.tt(); "
     "(2) every pattern built by the nested `enumerate` is well-formed with <= MAX_ANDS gates (a_node, b_node < 4 + ands.len(), out_node < 4 + ands.len(), recursion depth MAX_ANDS) - by inspection; "
-    "(3) `best` is only written by `best.insert(canonical, canon_pat)` with (canonical, t) = npn_canonical(tt), canon_pat = transform_pattern(&pat, t). "
-    "Given (1)-(3), harness library_canonical_entry_computes_its_key proves canon_pat.tt() == canonical for every entry; the textual anchors of the three sites are re-checked on every run",
-    "not covered: that the library holds the *smallest* pattern per class, lookup_canonical/library() OnceLock plumbing, rewrite.rs cut enumeration/replacement, techmap.rs",
+    "(3) `best` is only written by `best.insert(canonical, canon_pat);` with (canonical, t) = npn_canonical(tt), canon_pat = transform_pattern(&pat, t). "
+    "Given (1)-(3), step (6) of the transform_pattern_commutes_with_apply_{0,1,2,3}_gates harnesses + npn_canonical's Verus contract give canon_pat.tt() == canonical for every entry; the textual anchors of the sites are re-checked on every run",
+    "not covered: that the library holds the *smallest* pattern per class, lookup_canonical / library() OnceLock plumbing, rewrite.rs cut enumeration and replacement, techmap.rs",
 ]
 LIB_ANCHORS = [
     (".insert(", 2),
@@ -103,3 +200,20 @@ LIB_ANCHORS = [
     ("let canon_pat = transform_pattern(&pat, t);", 1),
     ("best.insert(canonical, canon_pat);", 1),
 ]
+
+REPLAY_ITEMS = [("type", "Tt4", None), ("const", "VAR_TT", None), ("const", "MAX_ANDS", None), ("const", "ALL_PERMS", None), ("fn", "perm_tt", None),
+                ("fn", "flip_inputs", None), ("struct", "NpnTransform", None), ("impl{", "NpnTransform", None), ("const", "IDENTITY", "NpnTransform"),
+                ("fn", "apply", "NpnTransform"), ("}", None, None), ("fn", "perm_table", None), ("fn", "npn_canonical", None), ("struct", "PatEdge", None),
+                ("struct", "AigPattern", None), ("impl{", "AigPattern", None), ("fn", "size", "AigPattern"), ("fn", "eval", "AigPattern"),
+                ("fn", "tt", "AigPattern"), ("}", None, None), ("fn", "transform_pattern", None), ("fn", "library", None), ("fn", "lookup_canonical", None),
+                ("fn", "build_library", None)]
+
+
+def replay(ctx, res, failure):
+    """Verus gives no counterexample: compile the ORIGINAL item texts natively and enumerate all 65536 tables (x 768 transforms),
+    the whole lookup table and the whole pattern library; prints FOUND {json} for the first concrete failing input."""
+    from vp.core import native_search
+    text, _ = cut(ctx, REPLAY_ITEMS, orig=True)
+    body = ("#![allow(dead_code, unused_imports, unused_variables, unused_mut)]\nuse std::collections::HashMap;\nuse std::sync::OnceLock;\n"
+            + text + ctx.unit_file("npn", "spec.rs") + ctx.unit_file("npn", "replay.rs"))
+    return native_search(ctx, "npn", "npn", body, timeout=900)
